@@ -43,7 +43,7 @@ def pick_max_symbol(rng, width, cap=None):
     if width >= 32:
         cands += [65536, 2 ** 20, 2 ** 31, 2 ** 32 - 1]
     if width >= 64:
-        cands += [2 ** 32, 2 ** 33 + 5, 2 ** 48, 2 ** 63, 2 ** 64 - 1]
+        cands += [2 ** 32, 2 ** 33 + 5, 2 ** 48, 2 ** 63, 2 ** 64 - 1, 2 ** 50 - 1, 2 ** 53 - 1, 2 ** 56 - 2, 2 ** 62 - 1, 2 ** 63 - 1]
     if width >= 128:
         cands += [2 ** 64, 2 ** 64 + 3, 2 ** 100, 2 ** 127, 2 ** 128 - 1]
     if cap is not None:
